@@ -169,8 +169,18 @@ func (n *numbering) of(s string) int {
 	return n.m[s]
 }
 
+// every other process is built with a builder that has already handed out a process (Out() leaves the builder
+// ready for the next one): reuse must give the same well-formed result as a fresh builder
+var c19Reused *schema.ProcessBuilder
+var c19Builds int
+
 func c19BuildProcess(acts []int, presets []string) (*schema.Process, []string) {
+	c19Builds++
 	pb := schema.NewProcessBuilder()
+	if c19Builds%2 == 0 && c19Reused != nil {
+		pb = c19Reused
+	}
+	defer func() { c19Reused = pb }()
 	order := []string{*pb.StartEventField[0].IdField}
 	for i, k := range acts {
 		a := c19NewAct(k, presets[i])
